@@ -44,7 +44,7 @@ func (v enumItemValue) String() string {
 // 1.5, 1.50 and 15e-1 denote the same item.
 func (v enumItemValue) comparable() enumItemValue {
 	if v.jsonType == jjson.TypeInteger || v.jsonType == jjson.TypeFloat {
-		if n, err := jjson.NewNumber(jbytes.Bytes(v.value)); err == nil {
+		if n, err := jjson.ParseNumber(jbytes.Bytes(v.value)); err == nil {
 			v.value = n.String()
 		}
 	}
